@@ -36,7 +36,7 @@ func writeManifest() {
 		Reason     string `json:"reason"`
 	}
 	var checks []check
-	var nas []na
+	nas := []na{}
 	var claimed []string
 	// all property ids from properties.jsonl
 	f, err := os.Open(filepath.Join(verifDir, "properties.jsonl"))
@@ -90,7 +90,7 @@ func writeManifest() {
 			"kind_free_text": "custom static analyser over go/packages + go/types + go/cfg (+ go/ssa, VTA call graph for reachability rules); rule tables per property in checker/c*.go",
 		}},
 		"checks":         checks,
-		"not_applicable": nonNilNAs(nas),
+		"not_applicable": nas,
 		"notes":          "All checks are static: they load and type-check /repo's working tree on every run and report a specific construct. Exit 2 + 'UNDECIDED' means the analysis could not decide (type error, vanished anchor); it is never reported as a pass. Known findings: /verif/known_findings.json.",
 	}
 	b, _ := json.MarshalIndent(m, "", " ")
@@ -100,9 +100,3 @@ func writeManifest() {
 	fmt.Printf("MANIFEST.json: %d checks, %d not applicable (%v)\n", len(checks), len(nas), eng.SortedKeys(registry))
 }
 
-func nonNilNAs(n []na) []na {
-	if n == nil {
-		return []na{}
-	}
-	return n
-}
